@@ -234,6 +234,10 @@ def real_case(case):
     Xro = X.copy()
     Xro.setflags(write=False)
     Xfit = {"float64": X, "list": X.tolist(), "float32": X.astype(np.float32), "fortran": np.asfortranarray(X), "readonly": Xro, "numpy_args": X}[form]
+    if form == "float64" and bs is not None:
+        # the (unfitted) estimator as a grid search hands it to a worker: a pickled / deep-copied / cloudpickled copy runs the same path
+        from mc import transport
+        model = transport.roundtrip(model, transport.pick((name, gemini, alpha, mult, minf, keep, bs, dynamic, pre, restore)))
     pk = dict(alpha_multiplier=mult, min_features=minf, keep_threshold=keep, restore_best_weights=restore, max_patience=2)
     if form == "numpy_args":
         # arguments as a ParameterGrid over np.arange / np.linspace produces them: numpy scalars mean what the Python numbers mean
